@@ -142,6 +142,24 @@ def check(run, ctx):
     else:
         run.finding(R3, "rust_context.is_inside_test", "ancestor-walk-cut", f"the walk over enclosing items stops early ({norm(early[0]) if early else norm(loop.test)}): a call in a plain module nested inside a #[cfg(test)] module is no longer recognised as test code", it.loc)
 
+    R8 = run.rule("R8", "test attributes are recognised by containment of the marker in the text of preceding attribute_item siblings only ('test' / 'cfg(test)' in <attribute text>)", floor=2,
+                  decides="#[tokio::test(flavor = ...)], #[test_case(..)] and #[cfg(test)] count as test code, and a comment that happens to contain the word does not")
+    for fn_, marker in (("has_test_attribute", "test"), ("has_cfg_test_attribute", "cfg(test)")):
+        g = repo.func(f"src.analyzers.rust_context.{fn_}")
+        flat = list(inline.flat_nodes(repo, g))
+        sib_kinds = {v_ for n in flat if isinstance(n, ast.Compare) and isinstance(n.left, ast.Attribute) and n.left.attr == "type" for c_ in n.comparators
+                 for v_ in ([repo.fold(g.module, c_)] if isinstance(repo.fold(g.module, c_), str) else list(repo.fold(g.module, c_)) if isinstance(repo.fold(g.module, c_), (tuple, list, set, frozenset)) else [])}
+        contain = [n for n in flat if isinstance(n, ast.Compare) and len(n.ops) == 1 and isinstance(n.ops[0], ast.In) and repo.fold(g.module, n.left) == marker]
+        narrower = [n for n in flat if isinstance(n, ast.Call) and call_name(n) in ("endswith", "startswith", "fullmatch") or (isinstance(n, ast.Compare) and isinstance(n.ops[0], ast.Eq) and isinstance(repo.fold(g.module, n.comparators[0]), str) and "test" in str(repo.fold(g.module, n.comparators[0])))]
+        extra_kinds = sorted(k_ for k_ in sib_kinds if k_ not in ("attribute_item", "inner_attribute_item"))
+        if extra_kinds:
+            run.finding(R8, fn_, f"non-attribute-siblings:{extra_kinds}", f"{fn_} also reads {extra_kinds} siblings: their text is searched for {marker!r} like an attribute's, so a comment containing the word (\"latest\", \"Fastest\") turns production code into test code and its findings disappear", g.loc)
+        elif not contain or narrower:
+            w_ = norm(narrower[0]) if narrower else "no containment test"
+            run.finding(R8, fn_, f"marker-test:{w_[:50]}", f"{fn_} no longer recognises the attribute by `{marker!r} in <text>` ({w_}): attributes that carry arguments or a path (#[tokio::test(flavor = \"multi_thread\")], #[test_case(1, 2)]) are not seen as test code", g.loc)
+        else:
+            run.ok(R8, fn_, f"{marker!r} in <text of preceding attribute_item siblings>")
+
     R6 = run.rule("R6", "call records take line = node.start_point[0] + 1, column = node.start_point[1] and is_in_test from the same node", floor=3)
     for pkg, rec in (("unwrap_abuse", "UnwrapCall"), ("clone_abuse", "CloneCall"), ("blocking_async", "BlockingCall")):
         m = repo.mod(f"src.linters.{pkg}.rust_analyzer")
